@@ -5,6 +5,7 @@
 #include <string>
 
 #include "Compiler/include/macro.hpp"
+#include "Compiler/include/parse.hpp"
 #include "Compiler/include/scan.hpp"
 
 #define MIN(a, b) (((a) < (b)) ? (a) : (b))
@@ -531,6 +532,9 @@ Theo::MacroApplicationResult Theo::apply_macros(
       if (changed) break;  // start over : attempt high priority macros again
     }
     if (!changed) break;
+    // stop before a self-feeding macro that duplicates its slots exhausts
+    // memory; the expansion is unfinished, which is reported below
+    if (input.size() > THEO_MACRO_MAX_TOKENS) break;
   }
 
   if (changed)
